@@ -3,6 +3,9 @@
 import json, os
 HERE = os.path.dirname(os.path.abspath(__file__))
 CLAIMED = {
+ 'C16': ('other', 'Per-operation inductive ingredients of the table invariant (count = number of valid entries, unique key, all-complete = for-all over valid entries, stamps are clock readings) decided on the real API with a fully symbolic 16-entry table and every loop summarised by one symbolic index: exact count deltas paired with valid flips per iteration, lookup-before-insert with the identical key, insertion only into a slot established free, full table untouched, wipe, recomputation as a for-all, 60 s expiry in both directions, who-may-write. Step-by-step equivalence with a dictionary model over histories follows by induction and is not itself enumerated.',
+         'clang AST + layouts, lltdsa engine; callers outside the parsed units that modify entries directly (Darwin) are not covered',
+         'abstract interpretation with symbolic-index loop summaries; pairing and who-may-write rules', '4 (C16)'),
  'C01': ('other', 'Generated proof obligations: every dereference, subscript, memcpy/memset argument, shift, division and signed operation reachable from all receive/tick entry points (parseFrame over all 65 536 cells in both MTU modes, derive_session_event, ESP32 entry, switch_state_* from every state, automata_tick for every state pair with NULL-able arguments, table/band/mapping helpers, constructors) is discharged by intervals + linear entailment with inductive loop summaries, for all frame contents, MTUs, states and platform faults at once; plus the daemons\' buffer-size agreement (R01.7). Not a proof of the whole property: stack depth, port internals and unparseable daemons are out of reach, and one unbounded scan (derive_session_event) is a recorded known finding.',
          'clang AST + layouts, lltdsa engine, port contract (MTU-sized receive buffer, well-behaved getters/allocator); KNOWN_FINDINGS lists the derive_session_event scan',
          'abstract interpretation with generated proof obligations (interval + Fourier-Motzkin entailment), inductive loop summaries', '4 (C01)'),
